@@ -41,6 +41,7 @@ McNoCur == [id |-> 0, num |-> 0, pl |-> [seq |-> 0, cmd |-> "", lay |-> ""], att
 DefaultCmds == <<"getNodeId", "nop", "readCounters", "sendUnicast">>     \* CmdOf <- DefaultCmds in the configuration
 None == [res |-> "none", val |-> 0]
 ValOf(seq) == 100 + seq
+NcpVersion == 8
 
 Init == /\ s = [SInit EXCEPT !.run = TRUE, !.reg = TRUE, !.hv = 8, !.lay = Layout(8)]
         /\ n = NInit /\ h2n = <<>> /\ n2h = <<>> /\ faults = 0 /\ issued = 0
@@ -57,7 +58,7 @@ ResolveF(fs, ty) == [i \in 1 .. Len(fs) |-> IF fs[i].type = "ACKorNAK" THEN [fs[
 HostTake(r) ==
     /\ s' = r.s
     /\ \E ty \in (IF HasWildF(WritesOf(r.out)) THEN {"ACK", "NAK"} ELSE {"ACK"}) :
-          h2n' = h2n \o ResolveF(WritesOf(r.out), ty)
+          h2n' = h2n \o [i \in 1 .. Len(Sel(r.out, "rst")) |-> [type |-> "RST"]] \o ResolveF(WritesOf(r.out), ty)
     /\ outc' = [c \in 1 .. NCalls |->
                   LET d == SelectSeq(r.out, LAMBDA o : o.o = "cdone" /\ o.c = c)
                   IN IF d # <<>> /\ c \notin canc THEN [res |-> d[1].res, val |-> d[1].val] ELSE outc[c]]
@@ -75,7 +76,7 @@ RECURSIVE Answer(_, _, _)
 Answer(nn, ups, out) ==
     IF ups = <<>> THEN R(nn, out)
     ELSE LET pl == Head(ups)
-             r == NSubmitFn(nn, [seq |-> pl.seq, cmd |-> pl.cmd, val |-> ValOf(pl.seq)])
+             r == NSubmitFn(nn, [seq |-> pl.seq, cmd |-> pl.cmd, val |-> IF pl.cmd = "version" THEN NcpVersion ELSE ValOf(pl.seq)])
          IN Answer(r.h, Tail(ups), out \o r.out)
 NcpTake(r) ==
     LET ups == LET u == Sel(r.out, "up_data") IN [i \in 1 .. Len(u) |-> u[i].pl]
@@ -117,7 +118,7 @@ ToHost(fault) ==
            [] fault = "dup"     -> /\ UNCHANGED n2h /\ HostTake(SRecv(s, <<f>>, 0)) /\ UNCHANGED badSync
     /\ UNCHANGED <<n, ncpRx, issued, ncbs, canc, failed>>
 ToNcp(fault) ==
-    /\ h2n # <<>>
+    /\ h2n # <<>> /\ Head(h2n).type # "RST"
     /\ fault # "deliver" => faults < MaxFaults
     /\ faults' = IF fault = "deliver" THEN faults ELSE faults + 1
     /\ LET f == Head(h2n) IN
@@ -127,6 +128,11 @@ ToNcp(fault) ==
            [] fault = "dup"     -> /\ UNCHANGED h2n /\ NcpTake(NRecvFn(n, f))
     /\ UNCHANGED <<s, outc, seqOf, order, cbSeen, badWrite, issued, ncbs, canc, failed, badSync>>
 
+(* the NCP reads an RST frame: it restarts and announces RSTACK(software reset) *)
+NcpReset == /\ h2n # <<>> /\ Head(h2n).type = "RST"
+            /\ h2n' = Tail(h2n) /\ n' = NInit
+            /\ n2h' = Append(n2h, [type |-> "RSTACK", ver |-> 2, code |-> SoftwareReset])
+            /\ UNCHANGED <<s, outc, seqOf, order, cbSeen, badWrite, issued, ncbs, canc, failed, badSync, faults, ncpRx>>
 (* the NCP fails: it sends an ERROR frame (and stops) / the connection is lost *)
 NcpError == /\ "error" \in Failures /\ failed = "no" /\ failed' = "error"
             /\ n2h' = Append(n2h, [type |-> "ERROR", ver |-> 2, code |-> 2])
@@ -143,14 +149,14 @@ THDeliver == /\ n2h # <<>> /\ s.g.up
 THDrop    == ToHost("drop")
 THCorrupt == ToHost("corrupt")
 THDup     == ToHost("dup")
-TNDeliver == /\ h2n # <<>>
+TNDeliver == /\ h2n # <<>> /\ Head(h2n).type # "RST"
              /\ h2n' = Tail(h2n) /\ NcpTake(NRecvFn(n, Head(h2n)))
              /\ UNCHANGED <<s, outc, seqOf, order, cbSeen, badWrite, issued, ncbs, canc, failed, badSync, faults>>
 TNDrop    == ToNcp("drop")
 TNCorrupt == ToNcp("corrupt")
 TNDup     == ToNcp("dup")
 CancelAny == \E c \in 1 .. NCalls : Cancel(c)
-Next == \/ Call \/ CancelAny \/ HTick \/ CmdTimer \/ NTimer \/ NcpCallback \/ NcpError \/ Lost
+Next == \/ NcpReset \/ Call \/ CancelAny \/ HTick \/ CmdTimer \/ NTimer \/ NcpCallback \/ NcpError \/ Lost
         \/ THDeliver \/ THDrop \/ THCorrupt \/ THDup \/ TNDeliver \/ TNDrop \/ TNCorrupt \/ TNDup
 Spec == Init /\ [][Next]_vars
 FairSpec == Spec /\ WF_vars(HTick) /\ WF_vars(CmdTimer) /\ WF_vars(NTimer) /\ WF_vars(THDeliver) /\ WF_vars(TNDeliver) /\ WF_vars(Call)
